@@ -23,6 +23,7 @@ import (
 	"github.com/mandykoh/prism/ciexyz"
 	"github.com/mandykoh/prism/displayp3"
 	"github.com/mandykoh/prism/meta/autometa"
+	"github.com/mandykoh/prism/meta/icc"
 	"github.com/mandykoh/prism/meta/pngmeta"
 	"github.com/mandykoh/prism/prophotorgb"
 	"github.com/mandykoh/prism/srgb"
@@ -145,6 +146,43 @@ func main() {
 						h += 333 // profile bytes differ from what was embedded
 					}
 					h += uint64(md.PixelWidth)
+				}
+				// encoders on inputs that are not multiples of 1/65535 (a table look-up and a direct
+				// evaluation of the curve agree on the grid only)
+				for _, x := range []float32{3e-06, 1e-05, 0.18, 0.4332, 0.51467, 0.9999924, float32(g%7) / 7.3} {
+					h = h*31 + uint64(srgb.To16Bit(x)) + uint64(adobergb.To16Bit(x))<<1 + uint64(prophotorgb.To16Bit(x))<<2 +
+						uint64(srgb.To8Bit(x))<<3 + uint64(adobergb.To8Bit(x))<<4 + uint64(prophotorgb.To8Bit(x))<<5
+				}
+				// ICC headers: every goroutine decodes its own sequence of headers and compares each field
+				// with a big-endian read at the ICC.1 offset
+				for j := 0; j < 40; j++ {
+					hd := make([]byte, 132)
+					seed := uint64(g*1000003+k*7919+j) * 0x9E3779B97F4A7C15
+					for i := range hd[:128] {
+						seed = seed*6364136223846793005 + 1442695040888963407
+						hd[i] = byte(seed >> 56)
+					}
+					copy(hd[36:40], "acsp")
+					binary.BigEndian.PutUint16(hd[24:], 2000)
+					binary.BigEndian.PutUint16(hd[26:], 6)
+					binary.BigEndian.PutUint16(hd[28:], 15)
+					binary.BigEndian.PutUint16(hd[30:], 12)
+					binary.BigEndian.PutUint16(hd[32:], 30)
+					binary.BigEndian.PutUint16(hd[34:], 30)
+					pr, err := icc.NewProfileReader(bytes.NewReader(hd)).ReadProfile()
+					if err != nil || pr == nil {
+						h += 111
+						continue
+					}
+					be := binary.BigEndian
+					H := pr.Header
+					if uint32(H.ProfileSize) != be.Uint32(hd[0:]) || uint32(H.PreferredCMM) != be.Uint32(hd[4:]) || uint32(H.DeviceClass) != be.Uint32(hd[12:]) ||
+						uint32(H.DataColorSpace) != be.Uint32(hd[16:]) || uint32(H.ProfileConnectionSpace) != be.Uint32(hd[20:]) ||
+						uint32(H.PrimaryPlatform) != be.Uint32(hd[40:]) || uint32(H.DeviceManufacturer) != be.Uint32(hd[48:]) ||
+						uint32(H.DeviceModel) != be.Uint32(hd[52:]) || uint32(H.RenderingIntent) != be.Uint32(hd[64:]) ||
+						uint32(H.ProfileCreator) != be.Uint32(hd[80:]) || !bytes.Equal(H.ProfileID[:], hd[84:100]) {
+						h += 222 // a header field differs from the bytes at its offset
+					}
 				}
 				// metadata loaders
 				if file != nil {
